@@ -5,6 +5,7 @@
 #[path = "../../../harness/vh/src/codec.rs"]
 mod codec;
 mod formatter;
+mod intoiter;
 mod mutation;
 mod options;
 
@@ -23,6 +24,7 @@ fn main() {
         "x01" => mutation::run(&cfg),
         "x02" => formatter::run(&cfg),
         "x05" => options::run(&cfg),
+        "x07" => intoiter::run(&cfg),
         other => {
             eprintln!("unknown command {}", other);
             std::process::exit(2);
